@@ -49,7 +49,7 @@ PROPS['C07'] = dict(
 )
 
 PROPS['C01'] = dict(
-    unit_modules=[], driver_modules=['drivers.c01'], level='other',
+    unit_modules=['contracts.c01_precedence'], driver_modules=['drivers.c01'], level='other',
     level_text='tbd', level_note='tbd', assumptions=COMMON_ASSUMPTIONS,
 )
 
